@@ -3,15 +3,24 @@
 #![allow(unused_imports, dead_code)]
 use super::*;
 
-/// K1 (complete: every u16): whatever code the OS layer accepts survives every conversion:
-/// from_u16(c) = Some(o)  ==>  o.as_u16() = c, KeyCode::from(o) has the same number, and
-/// converting back gives o again.  "The internal and OS code spaces coincide value for value."
+/// K1 + K3 (complete: every u16), one call of from_u16 per code:
+/// K3: the set of codes kanata knows is exactly 0..=748 and 767 (749..=766 are placeholder
+///     variants without an OS mapping on the unchanged tree); the reserved no-op output range
+///     0x2a4..=0x2ad lies inside it.
+/// K1: whatever code the OS layer accepts survives every conversion: from_u16(c) = Some(o)
+///     ==> o.as_u16() = c, KeyCode::from(o) has the same number, and converting back gives o.
+///     "The internal and OS code spaces coincide value for value."
 #[kani::proof]
-fn c11_k_code_roundtrip() {
+fn c11_k_codes() {
     let c: u16 = kani::any();
-    if let Some(o) = OsCode::from_u16(c) {
+    let known = c <= 748 || c == 767;
+    let r = OsCode::from_u16(c);
+    assert!(r.is_some() == known);
+    assert!(!(c >= 0x2a4 && c <= 0x2ad) || r.is_some());
+    if let Some(o) = r {
         assert!(o.as_u16() == c);
         assert!(u16::from(o) == c);
+        assert!(usize::from(o) == c as usize && u32::from(o) == c as u32 && i32::from(o) == c as i32);
         let k: KeyCode = o.into();
         assert!(k as u16 == c);
         let back: OsCode = k.into();
@@ -19,17 +28,18 @@ fn c11_k_code_roundtrip() {
         assert!(back.as_u16() == c);
         let k2: KeyCode = (&o).into();
         assert!(k2 == k);
+        let o2: OsCode = (&k).into();
+        assert!(o2 == o);
     }
+    kani::cover!(r.is_some() && c == 767);
 }
 
-/// K3 (complete: every u16): the set of codes kanata knows is exactly 0..=748 and 767.
-/// (749..=766 are placeholder variants without an OS mapping on the unchanged tree.)
+/// must-fail twin of K3: claims every code below 768 is known
 #[kani::proof]
-fn c11_k_known_codes() {
+fn c11_k_codes_neg() {
     let c: u16 = kani::any();
-    let known = c <= 748 || c == 767;
-    assert!(OsCode::from_u16(c).is_some() == known);
-    kani::cover!(OsCode::from_u16(c).is_some() && c == 767);
+    kani::assume(c < 768);
+    assert!(OsCode::from_u16(c).is_some());
 }
 
 /// K2 (complete: every value 0..=767, run with -Z valid-value-checks): the two transmuting
@@ -56,14 +66,6 @@ fn c11_k_transmute_valid_neg() {
     assert!(o as u16 == c);
 }
 
-/// the reserved no-op range consists of known codes (so the output filter is about real keys)
-#[kani::proof]
-fn c11_k_ignored_range_known() {
-    let c: u16 = kani::any();
-    kani::assume(c >= 0x2a4 && c <= 0x2ad);
-    assert!(OsCode::from_u16(c).is_some());
-}
-
 /// TryFrom<usize> / From<u32> / From<u16> agree with from_u16 on the known codes
 #[kani::proof]
 fn c11_k_int_conversions() {
@@ -72,7 +74,8 @@ fn c11_k_int_conversions() {
     let a = OsCode::from_u16(c).unwrap();
     let b: OsCode = OsCode::try_from(c as usize).unwrap();
     assert!(a == b);
-    assert!(usize::from(a) == c as usize);
-    assert!(u32::from(a) == c as u32);
-    assert!(i32::from(a) == c as i32);
+    let d: OsCode = OsCode::from(c);
+    assert!(a == d);
+    let e: OsCode = OsCode::from(c as u32);
+    assert!(a == e);
 }
